@@ -98,9 +98,22 @@ func genU64Edge() *rapid.Generator[uint64] {
 
 func genBigHex(maxBits int) *rapid.Generator[string] {
 	return rapid.Custom(func(t *rapid.T) string {
-		switch rapid.IntRange(0, 3).Draw(t, "bigkind") {
+		switch rapid.IntRange(0, 4).Draw(t, "bigkind") {
 		case 0:
 			return bigHex(new(big.Int).SetUint64(genU64Edge().Draw(t, "u")))
+		case 4: // wider than 64 bits with a bit length that is a whole number of bytes (72, 80, .., maxBits) or one off
+			if maxBits < 72 {
+				return "0"
+			}
+			bits := 8 * rapid.IntRange(9, maxBits/8).Draw(t, "bytes")
+			v := new(big.Int).Lsh(big.NewInt(1), uint(bits-1)) // bit length == bits
+			switch rapid.IntRange(0, 2).Draw(t, "shape") {
+			case 1:
+				v.Sub(new(big.Int).Lsh(big.NewInt(1), uint(bits)), big.NewInt(1)) // all ones
+			case 2:
+				v.Sub(v, big.NewInt(1)) // bit length bits-1
+			}
+			return bigHex(v)
 		case 1:
 			bits := rapid.IntRange(0, maxBits).Draw(t, "bits")
 			v := new(big.Int).Lsh(big.NewInt(1), uint(bits))
